@@ -299,6 +299,28 @@ def removeVictims : List AoNode → UState → UState
     | some e =>
       removeVictims rest (subEc (takeOut s v.key e) 1)
 
+/-- "The candidate is too big to fit in the cache." -/
+def tooBig (p : Params) (weight : Nat) : Bool :=
+  match p.cap with
+  | some maxCap => decide (weight > maxCap)
+  | none => false
+
+/-- The `match Self::admit(..)` part of `handle_insert`: TinyLFU admission against the
+LRU victims, or rejection of the candidate. -/
+def admitOrReject (p : Params) (s : UState) (k : Nat) (hash : UInt64) (weight : Nat)
+    (ts : Option Nat) : UState :=
+  let cf := s.sk.frequency hash
+  let a := admitLoop p s weight cf s.prob {}
+  if a.fault then s.fail .expect
+  else if a.vw ≥ weight ∧ cf > a.vf then
+    let s := removeVictims a.victims s
+    let s := pushCandidate p s k hash ts
+    let s := { s with ec := s.ec + 1 }
+    let s := { s with ws := s.ws - a.vw }
+    let s := { s with ws := s.ws + weight }
+    maybeEnableSketch p s
+  else { s with map := AL.erase s.map k }
+
 /-- `handle_insert(key, hash, policy_weight, timestamp)`. -/
 def handleInsert (p : Params) (s : UState) (k : Nat) (hash : UInt64) (weight : Nat)
     (ts : Option Nat) : UState :=
@@ -306,23 +328,8 @@ def handleInsert (p : Params) (s : UState) (k : Nat) (hash : UInt64) (weight : N
     let s := pushCandidate p s k hash ts
     let s := { s with ec := s.ec + 1, ws := s.ws + weight }
     maybeEnableSketch p s
-  else
-    let tooBig : Bool := match p.cap with
-      | some maxCap => decide (weight > maxCap)
-      | none => false
-    if tooBig then { s with map := AL.erase s.map k }
-    else
-      let cf := s.sk.frequency hash
-      let a := admitLoop p s weight cf s.prob {}
-      if a.fault then s.fail .expect
-      else if a.vw ≥ weight ∧ cf > a.vf then
-        let s := removeVictims a.victims s
-        let s := pushCandidate p s k hash ts
-        let s := { s with ec := s.ec + 1 }
-        let s := { s with ws := s.ws - a.vw }
-        let s := { s with ws := s.ws + weight }
-        maybeEnableSketch p s
-      else { s with map := AL.erase s.map k }
+  else if tooBig p weight then { s with map := AL.erase s.map k }
+  else admitOrReject p s k hash weight ts
 
 /-- `handle_update(key, timestamp, policy_weight, old_entry)`; the new entry is already
 in the map. -/
